@@ -115,7 +115,8 @@ LenOf(x) ==
 
 RECURSIVE Holds(_, _), HoldsAll(_, _, _), HoldsAny(_, _, _)
 Holds(c, x) ==
-  CASE x.k = "bigint" /\ c.k \notin {"utrue", "ufalse", "uraise", "not", "and", "or"} ->
+  CASE x.k = "sub" -> Holds(c, x.x)        \* an instance of a subclass of a basic type behaves as its base value
+    [] x.k = "bigint" /\ c.k \notin {"utrue", "ufalse", "uraise", "not", "and", "or"} ->
          (IF c.k \in {"pos", "nonneg", "finite"} THEN "T" ELSE IF c.k \in {"neg", "nonpos", "even"} THEN (IF c.k = "even" THEN "T" ELSE "F")
           ELSE IF c.k = "ge" THEN "T" ELSE IF c.k = "le" THEN "F" ELSE "X")
     [] c.k = "pos"    -> IF IsReal(x) THEN B3(NumLt(Fin(Zero), NumNum(x))) ELSE "X"
@@ -492,22 +493,37 @@ StdVal(x) ==
 (* d2 is d with some sequences permuted; we accept permutation only where   *)
 (* the type says the position holds a set.                                  *)
 RECURSIVE DataEqUpToSets(_, _, _)
-IsPerm(a, b) == Len(a) = Len(b) /\ \A i \in DOMAIN a :
-                  Cardinality({j \in DOMAIN a : a[j] = a[i]}) = Cardinality({j \in DOMAIN b : b[j] = a[i]})
 DataEqUpToSets(T, d, d2) ==
   IF d = d2 THEN TRUE
-  ELSE CASE T.k \in {"set", "frozenset"} -> d.k = "seq" /\ d2.k = "seq" /\ IsPerm(d.xs, d2.xs)
+  ELSE CASE T.k \in {"set", "frozenset"} ->
+              /\ d.k = "seq" /\ d2.k = "seq" /\ Len(d.xs) = Len(d2.xs)
+              /\ \A i \in DOMAIN d.xs : \E j \in DOMAIN d2.xs : DataEqUpToSets(T.e, d.xs[i], d2.xs[j])
+              /\ \A j \in DOMAIN d2.xs : \E i \in DOMAIN d.xs : DataEqUpToSets(T.e, d.xs[i], d2.xs[j])
          [] T.k \in {"list", "tuplevar", "deque"} ->
               d.k = "seq" /\ d2.k = "seq" /\ d.f = d2.f /\ Len(d.xs) = Len(d2.xs)
               /\ \A i \in DOMAIN d.xs : DataEqUpToSets(T.e, d.xs[i], d2.xs[i])
          [] T.k = "tuple" ->
               d.k = "seq" /\ d2.k = "seq" /\ d.f = d2.f /\ Len(d.xs) = Len(d2.xs) /\ Len(d.xs) = Len(T.es)
               /\ \A i \in DOMAIN d.xs : DataEqUpToSets(T.es[i], d.xs[i], d2.xs[i])
-         [] T.k \in {"dict", "defaultdict", "ordereddict"} ->
+         [] T.k \in DictKinds ->
+              LET vt == IF T.k = "counter" THEN [k |-> "int"] ELSE T.vt IN
               d.k = "map" /\ d2.k = "map" /\ Len(d.ps) = Len(d2.ps)
-              /\ \A i \in DOMAIN d.ps : d.ps[i][1] = d2.ps[i][1] /\ DataEqUpToSets(T.vt, d.ps[i][2], d2.ps[i][2])
+              /\ \A i \in DOMAIN d.ps : DataEqUpToSets(T.kt, d.ps[i][1], d2.ps[i][1]) /\ DataEqUpToSets(vt, d.ps[i][2], d2.ps[i][2])
+         [] T.k = "struct" ->
+              d.k = "map" /\ d2.k = "map" /\ Len(d.ps) = Len(d2.ps)
+              /\ \A i \in DOMAIN d.ps : /\ d.ps[i][1] = d2.ps[i][1] /\ d.ps[i][1].k = "str"
+                                         /\ \E j \in DOMAIN T.fs : T.fs[j][1] = d.ps[i][1].s /\ DataEqUpToSets(T.fs[j][2], d.ps[i][2], d2.ps[i][2])
          [] T.k = "union" -> \E i \in DOMAIN T.alts : DataEqUpToSets(T.alts[i], d, d2)
          [] T.k = "ann" -> DataEqUpToSets(T.t, d, d2)
+         [] T.k = "sub" -> DataEqUpToSets(T.base, d, d2)
+         [] T.k = "tvar" -> \E i \in DOMAIN T.ts : DataEqUpToSets(T.ts[i], d, d2)
+         [] T.k = "tagged" ->
+              \E i \in DOMAIN T.vars :
+                 (CASE T.lay = "int" -> DataEqUpToSets(T.vars[i], d, d2)
+                    [] T.lay = "ext" -> d.k = "map" /\ d2.k = "map" /\ Len(d.ps) = 1 /\ Len(d2.ps) = 1 /\ d.ps[1][1] = d2.ps[1][1]
+                                        /\ DataEqUpToSets(T.vars[i], d.ps[1][2], d2.ps[1][2])
+                    [] T.lay = "adj" -> d.k = "map" /\ d2.k = "map" /\ Len(d.ps) = 2 /\ Len(d2.ps) = 2 /\ d.ps[1] = d2.ps[1]
+                                        /\ d.ps[2][1] = d2.ps[2][1] /\ DataEqUpToSets(T.vars[i], d.ps[2][2], d2.ps[2][2]))
          [] T.k = "cls" ->
               LET outs == SelectSeq(T.fs, LAMBDA f : f.ex = "F") IN
               IF T.outf = "struct"
